@@ -4562,7 +4562,8 @@ class TLSConnection(TLSRecordLayer):
                 # Find a suitable ciphersuite based on the certificate
                 ciphers = CipherSuite.filter_for_certificate(cipher_suites, cert)
                 # but if we have matching PSKs, prefer those
-                if settings.pskConfigs and client_psks:
+                if settings.pskConfigs and client_psks and \
+                        client_psks.identities:
                     client_identities = [
                         i.identity for i in client_psks.identities]
                     psks_prfs = [i[2] if len(i) == 3 else None for i in
